@@ -42,12 +42,20 @@ func (c *countingReader) Read(p []byte) (int, error) {
 // CID and the varint length for the block data).
 func CountingLinkSystem(ls ipld.LinkSystem) (ipld.LinkSystem, ReadCounter) {
 	c := counter{}
+	// A block that is loaded more than once (a repeated link when links are not visited only
+	// once, a repeated chunk of a file read through a LargeBytesNode) still appears once in
+	// the CAR: the writing link system writes each CID once, so it is counted once.
+	counted := make(map[string]struct{})
 	clc := ls
 	clc.StorageReadOpener = func(lc linking.LinkContext, l ipld.Link) (io.Reader, error) {
 		r, err := ls.StorageReadOpener(lc, l)
 		if err != nil {
 			return nil, err
 		}
+		if _, ok := counted[l.Binary()]; ok {
+			return r, nil
+		}
+		counted[l.Binary()] = struct{}{}
 		buf := bytes.NewBuffer(nil)
 		n, err := buf.ReadFrom(r)
 		if err != nil {
